@@ -2,6 +2,7 @@
 import LasModel.Driver.Ge
 import LasModel.Driver.Sf
 import LasModel.Driver.VlrD
+import LasModel.Driver.HdrD
 namespace LasModel.Driver
 
 def dispatch (line : String) : String :=
@@ -9,6 +10,7 @@ def dispatch (line : String) : String :=
   | "ge" :: rest => (Ge.handle rest).getD "bad-op"
   | "sf" :: rest => (Sf.handle rest).getD "bad-op"
   | "vlr" :: rest => (VlrD.handle rest).getD "bad-op"
+  | "hdr" :: rest => (HdrD.handle rest).getD "bad-op"
   | _ => "bad-op"
 
 partial def loop (h : IO.FS.Stream) (out : IO.FS.Stream) : IO Unit := do
